@@ -74,8 +74,8 @@ ASSUMPTIONS = [
     "label (documented ValueError otherwise) and never with partial_fit "
     "(the wrapped estimators need the full class list on the first call)",
     "MixtureModelClassifier data sets have >= 3 rows (n_components <= 3)",
-    "AnnotatorLogisticRegression and GaussianProcessRegressor are driven "
-    "without sample_weight (C12 finding / no sample_weight support)",
+    "GaussianProcessRegressor is driven without sample_weight (its fit has "
+    "no such parameter)",
     "NICKernelRegressor / NadarayaWatsonRegressor: metric_dict None or "
     "numeric gamma only - gamma='mean' is documented for the Parzen window "
     "classifier only",
@@ -86,7 +86,9 @@ ASSUMPTIONS = [
     "ProbCover is queried with update=True whenever X differs from the "
     "previous query (its cache is documented as one X per object)",
     "cognitive stream strategies are updated with chunks of one instance "
-    "(C10 finding for larger chunks)",
+    "and only with the indices their own query returned (C10 finding for "
+    "larger chunks / inconsistent indices); all other stream components "
+    "also get stand-alone update calls, including before the first query",
     "pool utilities are compared on the first batch row only (later rows "
     "depend on the tie-break of the earlier picks)",
     "an exception of fit / partial_fit / pool query is a C13 violation only "
@@ -99,8 +101,8 @@ ASSUMPTIONS = [
     "a change of what get_params reports",
 ]
 PROFILE = {
-    "quick": dict(examples=260, shards=16, budget_s=100),
-    "thorough": dict(examples=5000, shards=16, budget_s=1100),
+    "quick": dict(examples=900, shards=16, budget_s=100),
+    "thorough": dict(examples=12000, shards=16, budget_s=1100),
 }
 
 SCALES = [0.1, 1.0, 10.0]
@@ -538,7 +540,7 @@ def _skclf_comp(draw, names=("GaussianNB", "LogisticRegression",
             "cfg": {"est": name,
                     "warm_start": (name != "GaussianNB"
                                    and draw(st.booleans())),
-                    "classes_given": (draw(st.booleans())
+                    "classes_given": (draw(st.integers(0, 3)) > 0
                                       if classes_given is None
                                       else classes_given)}}
 
@@ -614,8 +616,6 @@ def _offers_partial_fit(comp):
 
 def _weights_ok(comp):
     kind, cfg = comp["kind"], comp["cfg"]
-    if kind == "AnnotatorLogisticRegression":
-        return False
     if kind == "SklearnNormalRegressor":
         return cfg["est"] != "GaussianProcessRegressor"
     return True
@@ -656,16 +656,18 @@ def _estimator_case(draw):
     fit = st.fixed_dictionaries({"op": st.just("fit"), "ds": dsi,
                                  "w": st.booleans()})
     nn = st.integers(0, 20)
-    part = st.fixed_dictionaries({"op": st.just("partial_fit"), "ds": dsi,
-                                  "rows": st.tuples(nn, nn).map(list),
-                                  "w": st.booleans()})
+    part = st.fixed_dictionaries({
+        "op": st.just("partial_fit"), "ds": dsi,
+        "rows": st.one_of(st.just([0, 20]),  # the whole data set
+                          st.tuples(nn, nn).map(list)),
+        "w": st.booleans()})
     preds = ["predict"]
     if task == "clf":
         preds.append("predict_proba")
         if _has_freq(comp):
             preds.append("predict_freq")
     pred = st.fixed_dictionaries({"op": st.sampled_from(preds)})
-    mix = [fit, fit, pred] + ([part, part, part] if pf else [])
+    mix = [fit, pred, part, part, part, part] if pf else [fit, fit, pred]
     free = draw(st.lists(st.one_of(*mix), min_size=0, max_size=6))
     if draw(st.integers(0, 3)) > 0:
         a = draw(dsi)
@@ -673,7 +675,7 @@ def _estimator_case(draw):
         first = ("partial_fit" if pf and draw(st.integers(0, 2)) == 0
                  else "fit")
         head = [{"op": first, "ds": a, "w": draw(st.booleans()),
-                 **({"rows": [0, 19]} if first == "partial_fit" else {})},
+                 **({"rows": [0, 20]} if first == "partial_fit" else {})},
                 draw(pred),
                 {"op": "fit", "ds": b, "w": draw(st.booleans())}]
         k = draw(st.integers(0, 2))
@@ -720,10 +722,15 @@ def _stream_case(draw, pool=None):
         if name not in _NO_CLF:
             extra = {"train": st.integers(0, nds - 1),
                      "fit_clf": st.booleans()}
+        flags = {"queried": st.lists(st.booleans(), min_size=4, max_size=4),
+                 "utils": st.lists(st.sampled_from([0.0, 0.1, 0.3, 0.5]),
+                                   min_size=4, max_size=4)}
         q = st.fixed_dictionaries({"op": st.just("query"),
                                    "rows": chunk(mx), **extra})
         s = st.fixed_dictionaries({"op": st.just("step"),
                                    "rows": chunk(mx), **extra})
+        u = st.fixed_dictionaries({"op": st.just("update"),
+                                   "rows": chunk(mx), **flags})
     else:
         ut = st.one_of(st.sampled_from([0.0, 0.25, 0.5, 0.9, 1.0]),
                        st.floats(0, 1, allow_nan=False).map(
@@ -731,7 +738,12 @@ def _stream_case(draw, pool=None):
         rows = st.lists(ut, min_size=1, max_size=4)
         q = st.fixed_dictionaries({"op": st.just("query"), "rows": rows})
         s = st.fixed_dictionaries({"op": st.just("step"), "rows": rows})
-    case["ops"] = draw(st.lists(st.one_of(s, s, q), min_size=3,
+        u = st.fixed_dictionaries({
+            "op": st.just("update"), "rows": rows,
+            "queried": st.lists(st.booleans(), min_size=4, max_size=4)})
+    if cognitive:
+        u = s  # their update is only defined on what query returned (C10)
+    case["ops"] = draw(st.lists(st.one_of(s, s, s, q, q, u), min_size=3,
                                 max_size=9))
     return case
 
@@ -892,7 +904,7 @@ def _xyw(case, op, use_w):
         n = len(X)
         a, b = op["rows"]
         lo = a % n
-        hi = lo + 1 + b % (n - lo)
+        hi = n if b >= 20 else lo + 1 + b % (n - lo)
         X, y, w = X[lo:hi], y[lo:hi], w[lo:hi]
     return X, y, (w if use_w else None)
 
@@ -1219,39 +1231,77 @@ def _run_stream(case):
             viol.append(v)
 
     n_query = n_update = 0
-    trains = set()
     updated_before_query = False
     trains_after_update = set()
     train_first = None
+    update_first = False
+    has_bmpd = (kind == "strategy" and "budget_manager_param_dict"
+                in inspect.signature(obj.update).parameters)
+
+    def do_update(idx, chunk, q, utilities):
+        nonlocal n_update
+        utag = "first_update" if n_update == 0 else "later_update"
+        trig = f"{cfg_tag}&{utag}"
+        if kind == "manager":
+            cand = chunk.reshape(-1, 1)
+            if name == "BalancedIncrementalQuantileFilter":
+                ok, r2 = guarded(obj.update, cand, q, utilities.copy())
+            else:
+                ok, r2 = guarded(obj.update, cand, q)
+        elif has_bmpd:
+            ok, r2 = guarded(
+                obj.update, candidates=chunk.copy(), queried_indices=q,
+                budget_manager_param_dict={"utilities": utilities})
+        else:
+            ok, r2 = guarded(obj.update, candidates=chunk.copy(),
+                             queried_indices=q)
+        if not ok:
+            add(exc_violation(label, r2, trig, f"op {idx} update"))
+            return False
+        n_update += 1
+        tmp = []
+        watch.check(trig, f"op {idx} update", tmp)
+        for v in tmp:
+            add(v)
+        return True
+
     for idx, op in enumerate(case["ops"]):
+        chunk = np.array(op["rows"], dtype=float)
+        if op["op"] == "update":
+            # update without a preceding query on this chunk: the caller
+            # reports which instances were labeled
+            n = len(chunk)
+            q = np.array([i for i in range(n) if op["queried"][i]],
+                         dtype=int)
+            utilities = (chunk if kind == "manager"
+                         else np.array(op["utils"][:n], dtype=float))
+            if n_query == 0 and n_update == 0:
+                update_first = True
+            if not do_update(idx, chunk, q, utilities):
+                break
+            continue
         qtag = "first_query" if n_query == 0 else "later_query"
         trig = f"{cfg_tag}&{qtag}"
         if kind == "manager":
-            chunk = np.array(op["rows"], dtype=float)
             ok, r = guarded(obj.query_by_utility, chunk.copy())
-            utilities = chunk
+        elif name in _NO_CLF:
+            ok, r = guarded(obj.query, candidates=chunk.copy(),
+                            return_utilities=True)
         else:
-            chunk = np.array(op["rows"], dtype=float)
-            if name in _NO_CLF:
-                ok, r = guarded(obj.query, candidates=chunk.copy(),
-                                return_utilities=True)
-            else:
-                ds = case["datasets"][op["train"]]
-                X = np.array(ds["X"], dtype=float)
-                y = np.array(ds["y"], dtype=float)
-                clf = ParzenWindowClassifier(classes=[0, 1], random_state=0)
-                if not op["fit_clf"]:
-                    clf.fit(X, y)
-                ok, r = guarded(obj.query, candidates=chunk.copy(), clf=clf,
-                                X=X.copy(), y=y.copy(),
-                                fit_clf=bool(op["fit_clf"]),
-                                return_utilities=True)
-                trains.add(op["train"])
-                if train_first is None:
-                    train_first = op["train"]
-                if n_update:
-                    trains_after_update.add(op["train"])
-            utilities = None
+            ds = case["datasets"][op["train"]]
+            X = np.array(ds["X"], dtype=float)
+            y = np.array(ds["y"], dtype=float)
+            clf = ParzenWindowClassifier(classes=[0, 1], random_state=0)
+            if not op["fit_clf"]:
+                clf.fit(X, y)
+            ok, r = guarded(obj.query, candidates=chunk.copy(), clf=clf,
+                            X=X.copy(), y=y.copy(),
+                            fit_clf=bool(op["fit_clf"]),
+                            return_utilities=True)
+            if train_first is None:
+                train_first = op["train"]
+            if n_update:
+                trains_after_update.add(op["train"])
         if not ok:
             add(exc_violation(label, r, trig, f"op {idx} query"))
             break
@@ -1265,32 +1315,13 @@ def _run_stream(case):
         if op["op"] != "step":
             continue
         if kind == "manager":
-            q = r
-            cand = chunk.reshape(-1, 1)
-            if name == "BalancedIncrementalQuantileFilter":
-                ok, r2 = guarded(obj.update, cand, q, chunk.copy())
-            else:
-                ok, r2 = guarded(obj.update, cand, q)
+            q, utilities = r, chunk
         else:
             q, utilities = r
-            if "budget_manager_param_dict" in inspect.signature(
-                    obj.update).parameters:
-                ok, r2 = guarded(
-                    obj.update, candidates=chunk.copy(), queried_indices=q,
-                    budget_manager_param_dict={"utilities": utilities})
-            else:
-                ok, r2 = guarded(obj.update, candidates=chunk.copy(),
-                                 queried_indices=q)
-        utag = "first_update" if n_update == 0 else "later_update"
-        trig = f"{cfg_tag}&{utag}"
-        if not ok:
-            add(exc_violation(label, r2, trig, f"op {idx} update"))
+        if not do_update(idx, chunk, q, utilities):
             break
-        n_update += 1
-        tmp = []
-        watch.check(trig, f"op {idx} update", tmp)
-        for v in tmp:
-            add(v)
+    if update_first:
+        labels.append("update_before_first_query")
     if kind == "manager" or name in _NO_CLF:
         nontrivial = updated_before_query
     else:
